@@ -29,6 +29,7 @@ RULE = ("2..4 tasks issue 1..3 operations each (call key, cache_clear, cache_dis
         "one evaluation = one executed schedule; distinct = (scenario, schedule trace)")
 RULE += (' Also: planned failures of every standard exception type; None/0/() results for one key; a cancellation thrown into a worker must come out of the cached call (overlapping identical calls).')
 RULE += (' Also: opaque results.')
+RULE += (' Also: call objects created first and started later (a scheduling point between creation and start).')
 ASSUMPTIONS = ["cache contents during concurrency are not pinned, only constrained existentially at quiescence",
                "the OrderedDict LRU model is the one cross-validated against functools.lru_cache by C10"]
 EXHAUSTIVE_SUBSPACES = 'every scenario counted in scenarios_explored_exhaustively had ALL its interleavings executed'
@@ -62,7 +63,8 @@ def cases(tier, seed, shard, nshards):
                "cancel_task": rng.randrange(nt) if rng.random() < 0.4 else None,
                "runs": DFS_LIMIT[tier] if mode == "dfs" else RANDOM_RUNS[tier], "seed": rng.randrange(1 << 30),
                "exc": rng.choice(PLANNED_NAMES), "falsy_value": rng.choice([None, None, "none", "none", "zero", "empty", "opaque"]),
-               "epilogue": [rng.randrange(nkeys + 1) for _ in range(rng.randint(3, 7))]}
+               "epilogue": [rng.randrange(nkeys + 1) for _ in range(rng.randint(3, 7))],
+               "precreate": rng.random() < 0.3}
 
 
 def _same_value(a, b):
@@ -121,10 +123,21 @@ def execute(case, choose, cancel_at=None):
     async def worker(t, ops):
         for op in ops:
             if op[0] == "call":
+                call = None
+                if case.get("precreate"):
+                    # the call OBJECT is created first and started later (ensure_future / gather create their coroutine
+                    # objects before any of them runs): whether it hits or misses is decided when it runs - whatever
+                    # was cleared, discarded, evicted or stored in between
+                    call = cached(op[1])
+                    try:
+                        await Suspend(("created", t), 1)
+                    except BaseException:
+                        call.close()
+                        raise
                 state["started"] += 1
                 state["started_since_clear"] += 1
                 try:
-                    value = await cached(op[1])
+                    value = await (call if call is not None else cached(op[1]))
                 except Planned:
                     continue
                 received.append((t, op[1], value))
